@@ -51,6 +51,7 @@ type Exec struct {
 	assumeBeh func(st *State, fc *FuncContract, b *Behavior, in ssa.Instruction, hyp *Term)
 	onCall    func(st *State, rec *CallRecord)
 	onAcquire func(st *State, guarded *Obj)
+	isCallee  bool
 }
 
 func (x *Exec) fail(st *State, kind, name, detail string) {
@@ -707,7 +708,36 @@ func (x *Exec) havocLoop(st *State, li *loopInfo) {
 			st.env[phi] = sl
 		}
 	}
-	st.alloc = FreshInt("alloc@loop")
+	if loopAllocates(li) {
+		st.alloc = FreshInt("alloc@loop")
+	}
+}
+
+func loopAllocates(li *loopInfo) bool {
+	for b := range li.blocks {
+		for _, in := range b.Instrs {
+			switch in := in.(type) {
+			case *ssa.Alloc:
+				if in.Heap {
+					return true
+				}
+			case *ssa.MakeSlice, *ssa.MakeMap, *ssa.MakeClosure, *ssa.MakeInterface:
+				return true
+			case *ssa.Convert:
+				if _, ok := in.Type().Underlying().(*types.Basic); !ok {
+					return true
+				}
+				if b, ok := in.Type().Underlying().(*types.Basic); ok && b.Info()&types.IsString != 0 {
+					return true
+				}
+			case ssa.CallInstruction:
+				if !pureCallee(in.Common()) {
+					return true
+				}
+			}
+		}
+	}
+	return false
 }
 
 func (x *Exec) arrayStoredIn(li *loopInfo, st *State, o *Obj) bool { return true }
